@@ -8,6 +8,7 @@
     P <site> cmp=<0|1> root=<class> abs=<s-expr> src=<hex> | <outcome> chg=<...> leak=<n>
     N <site> name=<native> safe=<0|1> src=<hex>            | <outcome> chg=<...> leak=<n>
     H <site> type=<T> field=<f> nuv=<0|1> src=<hex>        | <outcome> chg=<...> leak=<n>
+    E events cmp=<0|1> abs=<a1>;<a2>;.. src=<hex>,<hex>,.. | <combined> ocs=<o1>,<o2>,.. dlv=<bits> chg=<...> leak=<n> inv=<n>
   Output:
     MISMATCH line=<n> case=<k> what=<...> impl=<...> model=<...>
     SPECFAIL line=<n> case=<k> clause=<name>
@@ -125,16 +126,8 @@ def parseAbs (s : String) : Option Expr := (parseToks (tokenize s) [[]]) >>= toE
 
 /-! ### the model configured by the generated tables -/
 
-/-- Natives as the driver instantiates them: the flag comes from the GENERATED table; a native flagged
-    side-effect free is pure, any other one visibly mutates the protected state when it is invoked — so
-    a missing call check shows up as a predicted state change. -/
-def driverNative (name : String) : Option Native :=
-  (genSafe name).map fun safe =>
-    { safe := safe,
-      run := fun _ _ p => if safe then (.ok .empty, p)
-                          else (.ok .empty, { p with globals := upsert ("MUTATED_BY_" ++ name) (.bool true) p.globals }) }
-
-def driverHidden (t f : String) : Bool := t == "ApiUser" && (f == "password" || f == "password_hash")
+-- `driverNative` / `driverHidden` (the natives and the hidden-field table the driver instantiates the model with) live in
+-- IcingaProofs/C19/Tables.lean, so that `driver_model_trace_meets_spec` is about exactly the model run here.
 
 /-- The harness's set-up (harness/c19.cpp `Setup`), abstractly. -/
 def env0 : Env :=
@@ -163,7 +156,7 @@ def parseImpl (post : List String) : Option ImplObs :=
     let chg ← kvOf rest "chg"
     let leak ← (kvOf rest "leak") >>= parseNat?
     let inv := ((kvOf rest "inv") >>= parseNat?).getD 0
-    pure { outcome := oc, changed := chg != "---", leak := leak, inv := inv }
+    pure { outcome := oc, changed := chg.toList.any (· != '-'), leak := leak, inv := inv }
   | _ => none
 
 structure DSt where
@@ -171,6 +164,8 @@ structure DSt where
   programs : Nat := 0
   natives : Nat := 0
   fields : Nat := 0
+  events : Nat := 0
+  filters : Nat := 0
   nOk : Nat := 0
   nSandbox : Nat := 0
   nHidden : Nat := 0
@@ -198,7 +193,7 @@ def tally (d : DSt) (io : ImplObs) : DSt :=
   if io.outcome != .err then { d with nontrivial := d.nontrivial + 1 } else d
 
 def report (d : DSt) (n : Nat) (kind : OpKind) (flagged : Bool) (io : ImplObs)
-    (model : Option (Outcome × Bool)) (cmpOutcome : Bool) : IO DSt := do
+    (model : Option (Outcome × Bool)) (cmpOutcome : Bool) (matchedDespiteError : Bool := false) : IO DSt := do
   let mut d := tally { d with caseNo := d.caseNo + 1 } io
   match model with
   | some (mo, mc) =>
@@ -214,7 +209,7 @@ def report (d : DSt) (n : Nat) (kind : OpKind) (flagged : Bool) (io : ImplObs)
       d := { d with kindDiff := d.kindDiff + 1 }
   | none => pure ()
   let obs : Obs := { kind := kind, flagged := flagged, outcome := io.outcome, changed := io.changed, leak := io.leak != 0,
-                     unsafeInvoked := io.inv != 0 }
+                     unsafeInvoked := io.inv != 0, matchedDespiteError := matchedDespiteError }
   if io.inv != 0 then d := { d with unsafeInvoked := d.unsafeInvoked + 1 }
   match specStep obs with
   | some cl =>
@@ -267,6 +262,33 @@ def handle (d : DSt) (n : Nat) (line : String) : IO DSt := do
           d := { d with mismatches := d.mismatches + 1 }
         report d n .program false io (some mo) cmp
     | _, _, _, _ => IO.println s!"BADLINE line={n}"; return d
+  | "E" :: _site :: rest =>
+    match parseImpl post, kvOf rest "abs", (kvOf rest "cmp") >>= parseBool?, kvOf post "ocs", kvOf post "dlv" with
+    | some io, some abs, some cmp, some ocs, some dlv =>
+      match (abs.splitOn ";").mapM parseAbs, (ocs.splitOn ",").mapM Outcome.ofName? with
+      | some filters, some implOcs =>
+        let implDlv := dlv.toList.map (· == '1')
+        if implOcs.length != filters.length || implDlv.length != filters.length then
+          IO.println s!"BADLINE line={n} (counts)"; return d
+        else
+          let cfg := genCfg driverNative driverHidden
+          let r := pushEvent cfg fuel filters env0
+          let mo := modelEventsObs cfg fuel filters env0
+          let mut d := { d with events := d.events + 1, filters := d.filters + filters.length }
+          -- per filter: value-vs-error and delivery, as the model of EventsFilter::Push predicts them
+          if cmp then
+            let implOk := implOcs.map (· == .ok)
+            let modelOk := r.1.map fun p => p.2 == .ok
+            if implOk != modelOk then
+              IO.println s!"MISMATCH line={n} case={d.caseNo + 1} what=filter-outcomes impl={ocs} model={",".intercalate (r.1.map fun p => p.2.name)}"
+              d := { d with mismatches := d.mismatches + 1 }
+            else if implDlv != r.1.map Prod.fst then
+              IO.println s!"MISMATCH line={n} case={d.caseNo + 1} what=delivered impl={dlv} model={String.ofList (r.1.map fun p => if p.1 then '1' else '0')}"
+              d := { d with mismatches := d.mismatches + 1 }
+          let mde := (implDlv.zip implOcs).any fun p => p.1 && p.2 != .ok
+          report d n .events false io (some (mo.outcome, mo.changed)) false mde
+      | _, _ => IO.println s!"BADLINE line={n} (abs/ocs)"; return d
+    | _, _, _, _, _ => IO.println s!"BADLINE line={n}"; return d
   | "N" :: _site :: rest =>
     match parseImpl post, kvOf rest "name", (kvOf rest "safe") >>= parseBool? with
     | some io, some name, some safe =>
@@ -295,15 +317,24 @@ def handle (d : DSt) (n : Nat) (line : String) : IO DSt := do
         | some "usingcall" => .call (.lit (.fn "System#string")) [.varIn [.lit (.obj "o")] field]
         | some "forin" => .for_ "k" "v" (.lit (.obj "o")) (.dict true [])
         | some "getfield" => .mcall (.lit (.obj "o")) "get" [.lit (.str field)]
+        | some "mlen" => .mcall direct "len" []
+        | some "midxlen" => .mcall direct "len" []
+        | some "mcontains" => .mcall direct "contains" [.lit (.str "S")]
+        | some "mtostr" => .mcall direct "to_string" []
+        | some "mcall" => .mcall (.index direct (.lit (.str "len"))) "call" [direct]
+        | some "ctor" => .call (.lit (.type_ "String")) [direct]
         | _ => direct
       let mo := observe cfg fuel prog env
       let d := { d with fields := d.fields + 1 }
       -- `getobj` lines go through natives (get_objects, map …) the model does not interpret: outcome is not compared
-      report d n .field nuv io (some mo) (kvOf rest "how" != some "getobj")
+      -- method calls on a VISIBLE field succeed or fail with the field's run-time type, which the model does not carry
+      let how := (kvOf rest "how").getD ""
+      let methodOnVisible := !nuv && ["mlen", "midxlen", "mcontains", "mtostr", "mcall"].contains how
+      report d n .field nuv io (some mo) (how != "getobj" && !methodOnVisible)
     | _, _, _, _ => IO.println s!"BADLINE line={n}"; return d
   | _ => IO.println s!"BADLINE line={n}"; return d
 
 def main : IO Unit := do
   let stdin ← IO.getStdin
   let d ← foldLines stdin handle ({} : DSt)
-  IO.println s!"STATS cases={d.caseNo} steps={d.caseNo} programs={d.programs} natives={d.natives} fields={d.fields} ok={d.nOk} sandbox={d.nSandbox} hidden={d.nHidden} err={d.nErr} changed={d.changed} leaks={d.leaks} nontrivial={d.nontrivial} table_checked={d.tableChecked} table_unknown={d.tableUnknown} crashes={d.crashes} unsafe_invoked={d.unsafeInvoked} error_kind_diff={d.kindDiff} mismatches={d.mismatches} specfails={d.specfails}"
+  IO.println s!"STATS cases={d.caseNo} steps={d.caseNo} programs={d.programs} natives={d.natives} fields={d.fields} events={d.events} event_filters={d.filters} ok={d.nOk} sandbox={d.nSandbox} hidden={d.nHidden} err={d.nErr} changed={d.changed} leaks={d.leaks} nontrivial={d.nontrivial} table_checked={d.tableChecked} table_unknown={d.tableUnknown} crashes={d.crashes} unsafe_invoked={d.unsafeInvoked} error_kind_diff={d.kindDiff} mismatches={d.mismatches} specfails={d.specfails}"
